@@ -4,7 +4,7 @@
 
    Logged, each bound to exactly one Apply action of the recording thread with every field compared:
      Call / Ret of dispatch_apply_f, Start / End of every invocation of the work function,
-     every atomic on da_index (Claim0 / Claim, with the memory order), da_todo (SubTodo), da_thr_cnt
+     every atomic on da_index (Claim0 / Claim, told apart by the control point), da_todo (SubTodo), da_thr_cnt
      (ThrDec), the da_event word (Signal / WaitDec / WaitSlow), and on the dq_state of custom queues
      the accesses of _dispatch_queue_try_reserve_apply_width (RedirResv) and
      _dispatch_queue_relinquish_width (RedirRelq / FinalRelq), word-level (projected old and new word).
@@ -42,6 +42,10 @@ HasTop(t) == stk[t] # <<>>
 Strip(x) == [sc |-> x.sc, side |-> x.side, inact |-> x.inact, na |-> x.na, ib |-> x.ib, pb |-> x.pb, used |-> x.used,
              dirty |-> x.dirty, enq |-> x.enq, ro |-> x.ro, qos |-> x.qos, owner |-> x.owner]
 
+\* memory orders: on this machine (x86-64, TSO) a different memory_order argument cannot change any behaviour the
+\* property speaks about (DESIGN 5.6): a mismatch is reported as drift, it never decides acceptance
+MoChk(m) == IF Rec.mo = m THEN TRUE ELSE PrintT(<<"MO_DRIFT", m, Rec.mo>>)
+
 (* ---- API level ---- *)
 TCall == /\ Ev("Call") /\ Consume /\ NoW /\ DoCall(Rec.t, Rec.d, Rec.n, Rec.q)
 TRet == /\ Ev("Ret") /\ Consume /\ NoW /\ HasTop(Rec.t) /\ Top(Rec.t).d = Rec.d /\ Ret(Rec.t)
@@ -59,20 +63,20 @@ Bound(t) == /\ HasTop(t)
 TIdx == /\ Ev("Idx") /\ Consume /\ NoW /\ Bound(Rec.t)
         /\ LET t == Rec.t d == Top(t).d IN
            /\ da[d].index = Rec.old /\ Rec.new = Rec.old + 1
-           /\ \/ Top(t).pc = "claim0" /\ Rec.mo = "acquire" /\ Claim0A(t, Rec.a)
-              \/ Top(t).pc = "claim" /\ Rec.mo = "relaxed" /\ da[d].a = Rec.a /\ Claim(t)
+           /\ \/ Top(t).pc = "claim0" /\ MoChk("acquire") /\ Claim0A(t, Rec.a)
+              \/ Top(t).pc = "claim" /\ MoChk("relaxed") /\ da[d].a = Rec.a /\ Claim(t)
 TTodo == /\ Ev("Todo") /\ Consume /\ NoW /\ Bound(Rec.t)
          /\ da[Top(Rec.t).d].a = Rec.a
-         /\ da[Top(Rec.t).d].todo = Rec.old /\ Rec.old - Top(Rec.t).done = Rec.new /\ Rec.mo = "release"
+         /\ da[Top(Rec.t).d].todo = Rec.old /\ Rec.old - Top(Rec.t).done = Rec.new /\ MoChk("release")
          /\ SubTodo(Rec.t)
 TThr == /\ Ev("Thr") /\ Consume /\ NoW /\ Bound(Rec.t)
-        /\ da[Top(Rec.t).d].thr = Rec.old /\ Rec.new = Rec.old - 1 /\ Rec.mo = "release"
+        /\ da[Top(Rec.t).d].thr = Rec.old /\ Rec.new = Rec.old - 1 /\ MoChk("release")
         /\ da[Top(Rec.t).d].a = Rec.a /\ ThrDec(Rec.t)
 TEvInc == /\ Ev("EvInc") /\ Consume /\ NoW /\ Bound(Rec.t) /\ da[Top(Rec.t).d].a = Rec.a
-          /\ da[Top(Rec.t).d].ev = Rec.old /\ Rec.new = Rec.old + 1 /\ Rec.mo = "release"
+          /\ da[Top(Rec.t).d].ev = Rec.old /\ Rec.new = Rec.old + 1 /\ MoChk("release")
           /\ Signal(Rec.t)
 TEvDec == /\ Ev("EvDec") /\ Consume /\ NoW /\ Bound(Rec.t) /\ da[Top(Rec.t).d].a = Rec.a
-          /\ da[Top(Rec.t).d].ev = Rec.old /\ Rec.new = Rec.old - 1 /\ Rec.mo = "acquire"
+          /\ da[Top(Rec.t).d].ev = Rec.old /\ Rec.new = Rec.old - 1 /\ MoChk("acquire")
           /\ WaitDec(Rec.t)
 \* the slow path's load: 0 ends the wait, anything else (-1: still waiting) goes back to the futex
 TEvLoad == /\ Ev("EvLoad") /\ Consume /\ NoW /\ Bound(Rec.t) /\ da[Top(Rec.t).d].a = Rec.a
